@@ -39,13 +39,19 @@ GEOM_FIELDS = [("s_inodes_count", 0, 4), ("s_blocks_count_lo", 4, 4), ("s_first_
 # only and a stale value in a backup is re-corrected after a recovery), free counts, times, labels, mount counts
 # feature bits that legitimately differ between primary and backups (e2fsck/super.c check_backup_super_block)
 MASK_COMPAT = 0
-MASK_INCOMPAT = 0x4            # needs_recovery
-MASK_RO = 0x8 | 0x20 | 0x10000  # huge_file, dir_nlink (set lazily by the kernel), orphan_present
+MASK_INCOMPAT = 0x4 | 0x40                 # needs_recovery, extents   (FEATURE_INCOMPAT_IGNORE)
+MASK_RO = 0x2 | 0x8 | 0x20 | 0x10000       # large_file, dir_nlink (FEATURE_RO_COMPAT_IGNORE: set lazily by the kernel), huge_file, orphan_present
 
 
 def gen_step(rng, cfg):
     feats = set(cfg["features"])
-    kind = rng.weighted([("none", 3), ("resize", 5), ("tune", 5), ("fsck", 2)])
+    kind = rng.weighted([("none", 3), ("resize", 5), ("tune", 5), ("fsck", 2), ("primary_only", 3)])
+    if kind == "primary_only":
+        # what a mounted kernel does: a feature bit appears in the primary superblock only (debugfs writes just the
+        # primary, too), possibly with the error flag raised; the next repairing e2fsck has to bring the backups up to date
+        cand = [f for f in ("ext_attr", "dir_index", "filetype") if f not in feats] or ["ext_attr"]
+        return {"kind": "primary_only", "feature": rng.choice(cand), "state": rng.choice([None, 2, 3, 3]),
+                "damage": rng.chance(0.5)}
     if kind == "resize":
         factor = rng.choice([0.5, 0.6, 0.75, 0.9, 1.1, 1.3, 1.7, 2.0, 3.1, 4.2])
         return {"kind": "resize", "kib": max(1024, int(cfg["size_kib"] * factor))}
@@ -99,6 +105,24 @@ class C20(Check):
             cfg.pop("bpg", None)       # default group size: plain e2fsck must find the backup
             cfg["size_kib"] = max(cfg["size_kib"], rng.choice([2, 3, 4]) * cfg["bs"] * 8 * cfg["bs"] // 1024 // (1 if cfg["bs"] < 4096 else 4))
             cfg["size_kib"] = min(cfg["size_kib"], 65536)
+        if rng.chance(0.22) and "cluster" not in cfg:
+            # many small groups with meta_bg: descriptor blocks of several meta groups, whose backup copies sit next to
+            # (or without) a backup superblock depending on the group number
+            cfg["bs"] = 1024
+            cfg["bpg"] = 256
+            cfg["inode_size"] = min(cfg["inode_size"], 256)
+            cfg["inode_ratio"] = 16384
+            feats = set(cfg["features"]) | {"meta_bg"}
+            feats.discard("resize_inode")
+            if rng.chance(0.6):
+                feats |= {"64bit", "extent"}
+            if rng.chance(0.4):
+                feats |= {"sparse_super", "sparse_super2"}
+            feats -= {"has_journal", "orphan_file", "bigalloc"}
+            cfg.pop("jsize", None)
+            cfg.pop("resize_max", None)
+            cfg["features"] = sorted(feats)
+            cfg["size_kib"] = rng.choice([18, 34, 50, 51, 60, 66, 82, 83, 100, 128]) * 256
         if "sparse_super2" in cfg["features"] and rng.chance(0.5):
             cfg["extra_eopts"] = ["num_backup_sb=%d" % rng.choice([0, 1, 2])]
         return {"cfg": cfg, "world_seed": rng.u64(), "step": gen_step(rng, cfg), "destroy": rng.choice(["zero", "noise"]),
@@ -145,6 +169,20 @@ class C20(Check):
                 if b"e2fsck" in r.out + r.err:
                     rf, _ = e2fsck(img, ["-fy"], wd, tag="tnf", clock=clock + 500, problems=False)
                     last += " + e2fsck"
+        elif step["kind"] == "primary_only":
+            cmds = ["feature %s" % step["feature"]]
+            if step["state"] is not None:
+                cmds.append("set_super_value state %d" % step["state"])
+            if step["damage"]:
+                cmds.append("set_inode_field <2> links_count 7")
+            from world import debugfs_script
+            rd = debugfs_script(img, cmds, wd, tag="ko", clock=clock, rand_seed=7, keep_log=True)
+            traces.append(log_hash(rd.events))
+            rf, _ = e2fsck(img, ["-fy"], wd, tag="rep", clock=clock + 300, problems=False, keep_log=True)
+            traces.append(log_hash(rf.events))
+            o.stats["step.primary_only.fsck_status%s" % rf.status] += 1
+            last = "debugfs(feature %s%s%s)+e2fsck -fy" % (step["feature"], ", state %s" % step["state"] if step["state"] is not None else "",
+                                                         ", damage" if step["damage"] else "")
         elif step["kind"] == "fsck":
             data = open(img, "rb").read()
             try:
@@ -197,7 +235,7 @@ class C20(Check):
         elif fs.has("sparse_super2") and want - have:
             o.violate("set|missing|%s" % lastk, "s_backup_bgs names groups %s but they hold no superblock copy (found %s): %s" %
                       (sorted(want - have), sorted(have)[:12], where), skey="set|missing")
-        if fs.has("sparse_super") and not fs.has("sparse_super2") and step["kind"] in ("none", "fsck", "tune") and have - want:
+        if fs.has("sparse_super") and not fs.has("sparse_super2") and step["kind"] in ("none", "fsck", "tune", "primary_only") and have - want:
             # (a shrunk or regrown filesystem may keep dead copies in groups that were backup groups before)
             o.violate("set|unexpected|%s" % lastk, "groups %s hold a superblock copy but the format rule gives %s: %s" %
                       (sorted(have - want), sorted(want)[:12], where), skey="set|unexpected")
@@ -233,6 +271,12 @@ class C20(Check):
 
         # ---- clause "usable": destroy the primary copies, recover from each backup
         prim_blocks = sorted(b for b, (k, g) in fm.items() if k in ("sb", "gdt", "pad"))
+        if fs.has("meta_bg"):
+            # the descriptor block of a meta group that consists of a single group has no second copy anywhere: the
+            # format prescribes no backup for it, so it is not part of "the primary copies are destroyed"
+            dpb = fs.desc_per_block
+            lonely = set(fs._desc_block_loc(i) for i in range(fs.sb["s_first_meta_bg"], fs.desc_blocks) if i * dpb + 1 >= fs.group_count)
+            prim_blocks = [b for b in prim_blocks if b not in lonely]
         broken = bytearray(data0)
         nrng = Rng(spec["noise_seed"])
         for b in prim_blocks:
@@ -305,6 +349,18 @@ class C20(Check):
                     o.violate("usable|%s|digest:%s" % (rk, ",".join(fields[:3])),
                               "after %s files changed: %s -- %s" % (route, brief(df), where), skey="usable|digest", route=[kind, g])
                     continue
+            # a current backup describes the same filesystem: the recovered descriptors must place every group's
+            # bitmaps and inode table where they were (a recovery that had to "relocate" them read stale or wrong descriptors)
+            try:
+                moved = [gg for gg in range(fs.group_count)
+                         if any(fs.group_desc(gg)[k] != fs1.group_desc(gg)[k] for k in ("bg_block_bitmap", "bg_inode_bitmap", "bg_inode_table"))] \
+                    if fs1.group_count == fs.group_count else ["group count %d -> %d" % (fs.group_count, fs1.group_count)]
+            except Exception as ex:
+                moved = ["unreadable descriptors: %r" % ex]
+            if moved:
+                o.violate("usable|%s|layout_changed" % rk, "after %s the bitmaps / inode table of group(s) %s are not where they were before "
+                          "the primary copies were destroyed: %s" % (route, moved[:8], where), skey="usable|layout", route=[kind, g])
+                continue
             o.stats["probe.recovered_ok"] += 1
         o.trace = hashlib.sha256("".join(traces).encode()).hexdigest()
         return o
